@@ -154,6 +154,24 @@ def run(ctx):
             c.ob("R5", ok2, dr, "processed->settled",
                  "eventless (always) transitions are settled after each event, before the next dequeue" if ok2 else
                  "an event can be processed without settling the always-transitions before the next event", g.nodes[d].ast)
+    # ---- R7 the async chain counter counts self-sends only --------------------------------
+    ra = roles(ctx, "Interpreter")
+    incs = []
+    for f in ra.funcs:
+        if f.module.name == "sync_interpreter":
+            continue
+        for x in own_nodes(f.node):
+            if isinstance(x, ast.AugAssign) and isinstance(x.op, ast.Add) and isinstance(x.target, ast.Attribute) and x.target.attr == "_raise_depth":
+                incs.append((f, x))
+    c.floor("R7", "increments of the raise-chain counter", len(incs), 1)
+    for f, x in incs:
+        atoms = guards_at(f, x)
+        self_only = any((cp := compare_parts(a)) is not None and isinstance(cp[1], ast.Is) and pol and
+                        {norm(cp[0]), norm(cp[2])} & {"self"} for a, pol in atoms)
+        c.ob("R7", self_only, f, "chain-counter-counts-self-sends-only",
+             "the chain counter is incremented only for a delivery whose target is this interpreter" if self_only else
+             f"'{stmt_text(x)}' in {f.short} is not guarded by 'actor is self': events sent from outside while a macrostep is in flight "
+             f"are counted as a self-raised chain, and the breaker then discards an external event", x)
     # ---- R6 thread discipline on the sync re-entrancy flag --------------------------
     r = roles(ctx, "SyncInterpreter")
     targets = []
